@@ -412,6 +412,7 @@ func (s *session) run(o runOpts) int {
 		it.mstate.lastNow = nil
 		it.mstate.manualClock = false
 		it.mstate.preemptive = false
+		it.mstate.fixedSched = false
 		it.mstate.lockOrder = nil
 		it.lockLog = nil
 		it.mstate.universe = nil
